@@ -214,6 +214,7 @@ def options_strategy(draw, rich: bool = True):
 
 NODE_OPS = ('replace',) * 10 + ('remove',) * 4 + ('cut',) * 2 + ('put',) * 3 + ('setitem',) * 2 + ('delitem',) + \
     ('setattr',) + ('delattr',) + ('cut_paste',) * 2 + ('put_line_comment',) + ('put_docstr',)
+PAR_OPS = ('par', 'par_force', 'unpar', 'unpar_node')
 SLICE_OPS = ('put_slice',) * 5 + ('insert',) * 2 + ('append', 'extend', 'prepend', 'prextend', 'setslice', 'setslice', 'delslice',
                                                      'put_slice_one', 'get_slice_cut', 'view_replace', 'view_remove', 'setfield')
 
@@ -232,6 +233,9 @@ def step_strategy(draw, rich_opts: bool = True):
             step['tsel2'] = draw(st.integers(0, 1 << 30))
         elif step['op'] in ('put_docstr', 'put_line_comment'):
             step['text'] = draw(st.sampled_from(['doc', 'two\nlines', 'q " \' q', 'back\\slash', 'ünï', '', 'tail  ', 'a\n    indented\n  b']))
+
+            if step['op'] == 'put_line_comment':
+                step['lc_field'] = draw(st.sampled_from([None, None, 'body', 'orelse', 'finalbody']))
     else:
         step['op'] = draw(st.sampled_from(SLICE_OPS))
         step['start'] = draw(st.integers(-7, 7))
@@ -519,7 +523,7 @@ def apply_step(root: FST, step: dict, base_opts: dict) -> Applied:
     ap.form = step['form']
     root_ast = root.a
 
-    if op in NODE_OPS:
+    if op in NODE_OPS or op in PAR_OPS:
         targets = node_targets(root_ast)
 
         if not targets:
@@ -641,12 +645,29 @@ def apply_step(root: FST, step: dict, base_opts: dict) -> Applied:
 
                 piece = f.copy(**opts)
                 node2.f.replace(piece, **opts)
+            elif op in PAR_OPS:  # parenthesization edits (not part of NODE_OPS: they do no parsability validation by design, used by C02 only)
+                if op == 'par':
+                    f.par()
+                elif op == 'par_force':
+                    f.par(force=True)
+                elif op == 'unpar':
+                    f.unpar()
+                else:
+                    f.unpar(node=True)
             elif op == 'put_line_comment':
                 if not isinstance(node, ast.stmt):
                     raise StepSkipped('line_comment_non_stmt')
 
                 text = step['text'].split('\n')[0].strip() or None
-                f.put_line_comment(text)
+                lc_field = step.get('lc_field')
+
+                if lc_field:
+                    if not getattr(node, lc_field, None):
+                        raise StepSkipped('line_comment_field_absent')
+
+                    f.put_line_comment(text, lc_field)
+                else:
+                    f.put_line_comment(text)
             elif op == 'put_docstr':
                 if not isinstance(node, (ast.FunctionDef, ast.AsyncFunctionDef, ast.ClassDef)):
                     tgt = root if isinstance(root_ast, ast.Module) else None
